@@ -68,6 +68,13 @@ SCENARIOS = [
      {'t1': S(1, 1), 't2': S(1, 1, prio=1), 't3': S(2, 1)}, ['t2']),
     ('unfit-mpi', R.Layout(2, 2, 0, 0, 0),
      {'t1': S(1, 1), 't2': S(1, 1), 't3': S(6, 1)}, []),
+    # GPU shares in tenths: five shares of 0.2 fill a GPU exactly
+    ('tenths',    R.Layout(1, 6, 1, 0, 0, su=10),
+     {'t1': S(5, 1, 2), 't2': S(3, 1, 3), 't3': S(1, 1, 10, prio=1)}, ['t2']),
+    # exclusive colocate tags, more tag values than nodes
+    ('exclusive', R.Layout(2, 2, 0, 0, 0),
+     {'t1': S(1, 1, colo='a', excl=True), 't2': S(1, 1, colo='b', excl=True),
+      't3': S(1, 1, colo='c', excl=True)}, ['t3']),
 ]
 
 # directed environment schedules (scenario, script): interleavings worth having
@@ -104,9 +111,9 @@ def tla_set(xs):
 
 def tla_shape(sh):
     return ('[ranks |-> %d, cpr |-> %d, gpr |-> %d, lfs |-> %d, mem |-> %d, rpn |-> %d, '
-            'prio |-> %d, colo |-> "%s"]'
+            'prio |-> %d, colo |-> "%s", excl |-> %s]'
             % (sh['ranks'], sh['cpr'], sh['gpr'], sh['lfs'], sh['mem'], sh['rpn'],
-               sh['prio'], sh['colo']))
+               sh['prio'], sh['colo'], 'TRUE' if sh.get('excl') else 'FALSE'))
 
 
 def tla_placement(sup):
@@ -187,6 +194,10 @@ CATALOGUE = [
     S(2, 1, colo='a'), S(1, 2, colo='b'), S(0, 1), S(1, 9), S(1, 1, 3), S(1, 0), S(1, 1, 64),
     S(2, 1, 1, 1, 1), S(1, 1, named_env=True), S(1, 3), S(6, 1),
     S(2, 1, 0, 1, 2), S(3, 1, 0, 1, 2), S(2, 1, 0, 2, 1), S(2, 1, 1, 1, 2), S(2, 2, 0, 1, 3),
+    # exclusive colocate tags: a new tag avoids nodes other tags used, unless all nodes are tagged
+    S(1, 1, colo='c', excl=True), S(1, 1, colo='d', excl=True), S(2, 1, colo='e', excl=True),
+    S(1, 2, colo='a', excl=True), S(1, 1, colo='f', excl=True),
+    S(1, 1, 3), S(3, 1, 1), S(2, 1, 3), S(5, 1, 2), S(10, 1, 1),
 ]
 
 LAYOUTS = [
@@ -195,6 +206,8 @@ LAYOUTS = [
     R.Layout(2, 4, 2, 3, 3, su=4), R.Layout(2, 2, 1, 2, 2, agents=1),
     R.Layout(3, 3, 1, 2, 0, bc=(2,)),
     R.Layout(2, 2, 2, 0, 0, bg=(0,)), R.Layout(1, 2, 0, 2, 4), R.Layout(2, 3, 0, 2, 6),
+    # GPU shares in tenths: 0.1, 0.2, 0.3 do not add up exactly in floating point
+    R.Layout(2, 4, 2, 0, 0, su=10), R.Layout(1, 6, 1, 0, 0, su=10),
 ]
 
 
@@ -202,12 +215,11 @@ def random_shape(rng, lay):
     '''attributes combined freely (the catalogue only has the combinations somebody thought of)'''
     gpr = 0
     if lay.ng and rng.random() < 0.45:
-        gpr = rng.choice([1, 2, lay.su, lay.su, 2 * lay.su] if lay.su > 1 else [1, 1, 2])
-        if gpr < lay.su and lay.su % gpr:
-            gpr = lay.su
+        gpr = rng.choice([1, 2, 3, lay.su, lay.su, 2 * lay.su] if lay.su > 2 else [1, lay.su, 2 * lay.su])
     return S(rng.choice([1, 1, 2, 2, 3, 4, 5]), rng.choice([1, 1, 1, 2]), gpr,
              rng.choice([0, 0, 1, 2]) if lay.lfs else 0, rng.choice([0, 0, 1, 2]) if lay.mem else 0,
-             rpn=rng.choice([0, 0, 1, 2]), colo=rng.choice(['none', 'none', 'none', 'a', 'b']))
+             rpn=rng.choice([0, 0, 1, 2]), colo=rng.choice(['none', 'none', 'none', 'a', 'b', 'c', 'd']),
+             excl=rng.random() < 0.5)
 
 
 def random_case(rng, with_supplied=True):
